@@ -41,6 +41,7 @@ class Report:
         self.stats: dict[str, T.Any] = {}
         self.rule_texts: dict[str, str] = {}
         self.floors: list[dict[str, T.Any]] = []
+        self.floor_failures: list[str] = []
         self.level = "other"
         self.explanation = ""
         self.extra_cov: dict[str, T.Any] = {}
@@ -70,9 +71,9 @@ class Report:
         """Instance floor: the rule must have located at least `minimum` anchors."""
         self.floors.append({"rule": rule, "what": what, "count": count, "floor": minimum})
         if count < minimum:
-            raise AnalysisError(
-                f"{rule}: located {count} {what}, fewer than the {minimum} confirmed by hand - anchor lost"
-            )
+            # deferred: a concrete violation found elsewhere on this tree wins over "anchor lost"
+            self.floor_failures.append(
+                f"{rule}: located {count} {what}, fewer than the {minimum} confirmed by hand - anchor lost")
 
     def stat(self, name: str, value: T.Any) -> None:
         self.stats[name] = value
@@ -126,7 +127,13 @@ class Report:
             print(f"      key: {o.key}")
             print(f"VIOLATION property={self.prop} replay={path}")
         self._write_evidence(len(new), matched)
-        return 1 if new else 0
+        if new:
+            return 1
+        if self.floor_failures:
+            for ff in self.floor_failures:
+                print(f"ANALYSIS-ERROR property={self.prop}: {ff}")
+            return 2
+        return 0
 
     def _write_evidence(self, nviol: int, matched: dict[str, list[Obligation]]) -> None:
         obs = self.obligations
